@@ -6,7 +6,8 @@
 //	builder:  jp.Eq/jp.Lt/… → Equation.Script() → Match(elem), Eval(list);  Equation.Filter() inside
 //	          jp.Expr → Get(list), First(list), Get(map)
 //	text:     fully parenthesised text → jp.MustNewScript → Match(elem);  "$[?…]" → jp.MustParseString → Get(list)
-//	textmin:  text with only the parentheses the precedence table needs → jp.MustNewScript → Match(elem)
+//	          "[?…]" → jp.MustNewFilter → Filter.Match(elem), Get(list) of jp.Expr{Root, filter}
+//	textmin:  text with only the parentheses the precedence table needs → the same three entry points
 //
 // — every call under recover. The Lean driver answers, per element, the verdict of the specification
 // (Spec.matches) and of the model (Model.matchElem under the deviations listed with -dev, with all
@@ -169,6 +170,10 @@ func main() {
 	if on("fnarg") {
 		fnargFamily(emit)
 	}
+	if on("boundary") {
+		n := boundaryFamily(emit)
+		rep.Exhaustive = append(rep.Exhaustive, fmt.Sprintf("int/float boundary pairs: 6 comparison operators x ints around 0, ±2^53, ±2^63 x floats around 0, ±2^53, ±2^63 (incl. neighbours, ±Inf, NaN) x both operand orders x 4 operand placements: %d cases", n))
+	}
 	// 3. seeded random nested scripts
 	n := 120000
 	if full {
@@ -191,7 +196,7 @@ func main() {
 		fmt.Fprintln(os.Stderr, "harness failure:", e)
 		os.Exit(3)
 	}
-	rep.Rule = "cases: corpus; exhaustive operator x operand-value x operand-value x placement matrix; multi-valued and bare-path/Nothing families; seeded random nested scripts over random element lists. Each case through up to 9 routes (builder/text/minimal-parenthesis text x Match/Eval/Get/First/Get-on-map); duplicates dropped by 64-bit hash before running; distinct_nontrivial counts cases whose script has at least one operator"
+	rep.Rule = "cases: corpus; exhaustive operator x operand-value x operand-value x placement matrix; multi-valued and bare-path/Nothing families; seeded random nested scripts over random element lists. Each case through up to 15 routes (builder: Script().Match/Eval, Filter() in Get/First/Get-on-map; full and minimal-parenthesis text: NewScript.Match, ParseString.Get, NewFilter.Match and Get); duplicates dropped by 64-bit hash before running; distinct_nontrivial counts cases whose script has at least one operator"
 	rep.Notes = append(rep.Notes, "model deviations assumed for this tree (-dev): "+*dev)
 	if err := rep.Write(*outPath); err != nil {
 		fmt.Fprintln(os.Stderr, err)
@@ -437,15 +442,7 @@ func runRoutes(k kase) []route {
 		}
 		if !bare {
 			if txt, ok := k.t.text(false); ok {
-				txt = "(" + txt + ")"
-				var sc *jp.Script
-				perr := guard(func() string { sc = jp.MustNewScript(txt); return "" })
-				if isPanic(perr) {
-					rs = append(rs, route{name: "textmin.parse", mode: "parse", impl: perr, text: txt})
-				} else {
-					chars, msg := matchChars(sc, data)
-					rs = append(rs, route{name: "textmin.match", mode: "match", key: "self", impl: chars, msg: msg, text: txt})
-				}
+				rs = append(rs, textRoutes("textmin", "("+txt+")", data, bare)...)
 			}
 		}
 	}
@@ -461,6 +458,9 @@ func guard2(f func() *jp.Script) (s *jp.Script) {
 	return f()
 }
 
+// textRoutes runs one script text through every entry point that reads script text: jp.MustNewScript
+// (Match), jp.MustParseString of "$[?…]" (Get) and jp.MustNewFilter of "[?…]" (Filter.Match, and Get of the
+// expression built around the filter). The three parse with separate code paths.
 func textRoutes(prefix, txt string, data []any, bare bool) []route {
 	var rs []route
 	var sc *jp.Script
@@ -473,10 +473,21 @@ func textRoutes(prefix, txt string, data []any, bare bool) []route {
 	var x jp.Expr
 	perr = guard(func() string { x = jp.MustParseString("$[?" + txt + "]"); return "" })
 	if isPanic(perr) {
-		return append(rs, route{name: prefix + ".parsefilter", mode: "parse", impl: perr, text: txt})
+		rs = append(rs, route{name: prefix + ".parsefilter", mode: "parse", impl: perr, text: txt})
+	} else {
+		o, m := listOutcome(func() []any { return x.Get(data) }, renderList)
+		rs = append(rs, route{name: prefix + ".get", mode: "list", key: "doc", impl: o, msg: m, text: "$[?" + txt + "]", wrap0: 'b'})
 	}
-	o, m := listOutcome(func() []any { return x.Get(data) }, renderList)
-	rs = append(rs, route{name: prefix + ".get", mode: "list", key: "doc", impl: o, msg: m, text: "$[?" + txt + "]", wrap0: 'b'})
+	var f *jp.Filter
+	perr = guard(func() string { f = jp.MustNewFilter("[?" + txt + "]"); return "" })
+	if isPanic(perr) {
+		return append(rs, route{name: prefix + ".newfilter", mode: "parse", impl: perr, text: txt})
+	}
+	chars, msg = matchChars(&f.Script, data)
+	rs = append(rs, route{name: prefix + ".nfmatch", mode: "match", key: "self", impl: chars, msg: msg, text: "[?" + txt + "]", wrap0: 'b'})
+	fx := jp.Expr{jp.Root('$'), f}
+	o, m := listOutcome(func() []any { return fx.Get(data) }, renderList)
+	rs = append(rs, route{name: prefix + ".nfget", mode: "list", key: "doc", impl: o, msg: m, text: "[?" + txt + "]", wrap0: 'b'})
 	return rs
 }
 
@@ -710,7 +721,8 @@ func judge(k kase, routes []route, model map[string]answer) {
 	}
 	// Match(v) <=> v is in the result of the corresponding filter
 	if !k.t.hasRootPath() {
-		for _, pr := range [][2]string{{"builder.match", "builder.get"}, {"text.match", "text.get"}} {
+		for _, pr := range [][2]string{{"builder.match", "builder.get"}, {"text.match", "text.get"}, {"text.match", "text.nfget"},
+			{"text.nfmatch", "text.nfget"}, {"textmin.match", "textmin.get"}, {"textmin.match", "textmin.nfget"}, {"textmin.nfmatch", "textmin.nfget"}} {
 			m, g := byName[pr[0]], byName[pr[1]]
 			if m == nil || g == nil {
 				continue
